@@ -75,6 +75,7 @@ def do_chunk(chunk):
     setup = [rt.obj_line(0), "preerrno %d" % rt.stale_errno(int(chunk[0][2]) % 97 + len(chunk))]
     lines = [rt.gensalt_line("rn", gen.TAG[m] if m else None, c, rb, 64, 192) for (m, fm, c, rb) in chunk]
     rows = rt.run_resilient(w, setup, lines)
+    rt.errno_independence(acc, PID, w, setup[:1], lines, rows, FL, (chunk[0][1] if chunk[0][0] else "NULL"))
     follow, fidx = [], []
     seen = set()
     nmodel = 0
